@@ -108,6 +108,45 @@ Proof.
   replace (0 + 1 + 1 + 1 + length name) with (S (S (S (length name)))) by lia. reflexivity.
 Qed.
 
+(* ---------------------------------------------------------------- binding / blank node on decoded runes, any alphabet *)
+Lemma scan_ident_runes : forall name ps, Forall (fun p : rw => ident_rune U (fst p) = true) name ->
+  scan_while (ident_rune U) ps name = (ps + wsum name, []).
+Proof.
+  induction name as [|[r w] name IH]; intros ps Hn; cbn [scan_while wsum]; [now rewrite Nat.add_0_r|].
+  inversion Hn as [|? ? L Hn']; subst. cbn [fst] in L. rewrite L. rewrite IH by assumption. f_equal. lia.
+Qed.
+
+Theorem printed_binding_runes : forall name, Forall (fun p : rw => ident_rune U (fst p) = true) name ->
+  lex_runes U ((63%Z, 1) :: name) =
+  ([(ItemBinding, 0, 1 + wsum name); (ItemEOF, 1 + wsum name, 1 + wsum name)], true).
+Proof.
+  intros name Hn. unfold lex_runes.
+  destruct (fuel_split ((63%Z, 1) :: name) 2 ltac:(lia)) as [f Ef]; [congruence|]. rewrite Ef. cbn [plus].
+  destruct rune_consts as (Q & B & Bi & Sl & Un).
+  rewrite run_S. cbn [step init_lx lex_token rest start pos last].
+  destruct (HU 63%Z ltac:(lia)) as (_ & Ed & _). rewrite Ed. replace (ascii_digit 63%Z) with false by reflexivity. cbn [andb].
+  rewrite Bi. cbn [Z.eqb Pos.eqb].
+  rewrite run_S. cbn [step]. unfold lex_binding. cbn [rest pos]. rewrite scan_ident_runes by assumption.
+  unfold emit. cbn [start]. rewrite run_at_end. reflexivity.
+Qed.
+
+Theorem printed_blank_node_runes : forall a wa name,
+  is_letter U a = true -> Forall (fun p : rw => ident_rune U (fst p) = true) name ->
+  lex_runes U ((95%Z, 1) :: (58%Z, 1) :: (a, wa) :: name) =
+  ([(ItemBlankNode, 0, 2 + wa + wsum name); (ItemEOF, 2 + wa + wsum name, 2 + wa + wsum name)], true).
+Proof.
+  intros a wa name La Hn. unfold lex_runes.
+  destruct (fuel_split ((95%Z, 1) :: (58%Z, 1) :: (a, wa) :: name) 2 ltac:(lia)) as [f Ef]; [congruence|]. rewrite Ef. cbn [plus].
+  destruct rune_consts as (Q & B & Bi & Sl & Un). destruct more_consts as (Co & _).
+  rewrite run_S. cbn [step init_lx lex_token rest start pos last].
+  destruct (HU 95%Z ltac:(lia)) as (_ & Ed & _). rewrite Ed. replace (ascii_digit 95%Z) with false by reflexivity. cbn [andb].
+  rewrite Bi, Sl, Un. cbn [Z.eqb Pos.eqb].
+  rewrite run_S. cbn [step]. unfold lex_blank_node. cbn [rest pos]. rewrite Co. cbn [Z.eqb Pos.eqb negb].
+  rewrite La. cbn [negb]. rewrite scan_ident_runes by assumption.
+  unfold emit. cbn [start]. rewrite run_at_end. cbn [app].
+  replace (0 + 1 + 1 + wa + wsum name) with (2 + wa + wsum name) by lia. reflexivity.
+Qed.
+
 (* ---------------------------------------------------------------- node  /type<id> *)
 (* any bytes (valid UTF-8 or not) except '<' '>' and backslash *)
 Definition node_byte (b : byte) : Prop := bz b <> 60%Z /\ bz b <> 62%Z /\ bz b <> 92%Z.
